@@ -319,7 +319,8 @@ class Effects:
             elif e in ("builtins.int", "builtins.float"):
                 if n.args and not isinstance(n.args[0], ast.Constant):
                     at = self.ti.type_of(n.args[0], f)
-                    if not at or not all(t in ("X:int", "X:float", "X:bool") for t in at):
+                    if (not at or not all(t in ("X:int", "X:float", "X:bool") for t in at)) \
+                            and not numeric_string(n.args[0], f, self.ix, e.endswith("float")):
                         add("ValueError", "%s() of a non-numeric string" % e.split(".")[1])
             elif e == "builtins.eval":
                 add("Exception", "eval of arbitrary text")
@@ -508,6 +509,109 @@ def zero_guarded(f, node):
             elif p and isinstance(atom, ast.Name):
                 return True
     return False
+
+
+def _digit_group(ix, f, call):
+    """call is <m>.group(k) / <m>.groupdict()[k] where <m> comes from a module regex constant whose group k
+    consists of decimal digits only"""
+    from . import rx as _rx
+    key = None
+    recv = None
+    if isinstance(call, ast.Call) and isinstance(call.func, ast.Attribute) and call.func.attr == "group" and len(call.args) == 1 \
+            and isinstance(call.args[0], ast.Constant):
+        key, recv = call.args[0].value, call.func.value
+    elif isinstance(call, ast.Subscript) and isinstance(call.slice, ast.Constant):
+        v = call.value
+        key = call.slice.value
+        if isinstance(v, ast.Call) and isinstance(v.func, ast.Attribute) and v.func.attr == "groupdict":
+            recv = v.func.value
+        elif isinstance(v, ast.Name):
+            defs = [n.value for n in iter_own_nodes(f.node) if isinstance(n, ast.Assign)
+                    and any(isinstance(t, ast.Name) and t.id == v.id for t in n.targets)]
+            recvs = [d.func.value for d in defs if isinstance(d, ast.Call) and isinstance(d.func, ast.Attribute) and d.func.attr == "groupdict"]
+            if defs and len(recvs) == len(defs):
+                return all(_digit_group_of(ix, f, r, key) for r in recvs)
+            return False
+    if recv is None:
+        return False
+    return _digit_group_of(ix, f, recv, key)
+
+
+def _regexes_of_match(ix, f, recv, depth=0):
+    """module regex constants a match object expression may come from, or None if unknown"""
+    if depth > 4:
+        return None
+    if isinstance(recv, ast.Call) and isinstance(recv.func, ast.Attribute) and recv.func.attr in ("search", "match", "fullmatch") \
+            and isinstance(recv.func.value, ast.Name):
+        return [recv.func.value.id]
+    if isinstance(recv, ast.BoolOp):
+        out = []
+        for v in recv.values:
+            r = _regexes_of_match(ix, f, v, depth + 1)
+            if r is None:
+                return None
+            out += r
+        return out
+    if isinstance(recv, ast.Name):
+        defs = [n.value for n in iter_own_nodes(f.node) if isinstance(n, ast.Assign)
+                and any(isinstance(t, ast.Name) and t.id == recv.id for t in n.targets)]
+        if not defs:
+            return None
+        out = []
+        for d in defs:
+            r = _regexes_of_match(ix, f, d, depth + 1)
+            if r is None:
+                return None
+            out += r
+        return out
+    return None
+
+
+def _digit_group_of(ix, f, recv, key):
+    from . import rx as _rx
+    from .repo import AnalysisError as _AE
+    names = _regexes_of_match(ix, f, recv)
+    if not names:
+        return False
+    for nm in names:
+        try:
+            pat, _ = _rx.module_regex(ix, f.module.name, nm)
+        except _AE:
+            return False
+        if not _rx.group_is_digits(pat, key):
+            return False
+    return True
+
+
+def numeric_string(e, f, ix, for_float=False, depth=0):
+    """the expression is a string of decimal digits (int) / a decimal literal (float) by construction:
+    digit-only regex groups, `x or 0`, "0." + digits, names bound only to such values"""
+    if depth > 5:
+        return False
+    if isinstance(e, ast.Constant):
+        return isinstance(e.value, (int, float)) or (isinstance(e.value, str) and e.value.replace(".", "", 1).isdigit())
+    if _digit_group(ix, f, e):
+        return True
+    if isinstance(e, ast.BoolOp) and isinstance(e.op, ast.Or):
+        return all(numeric_string(v, f, ix, for_float, depth + 1) for v in e.values)
+    if for_float and isinstance(e, ast.BinOp) and isinstance(e.op, ast.Add) and isinstance(e.left, ast.Constant) \
+            and e.left.value in ("0.", ".", "0") and numeric_string(e.right, f, ix, False, depth + 1):
+        return True
+    if isinstance(e, ast.Name):
+        if e.id in f.params():
+            return False
+        defs = [n.value for n in iter_own_nodes(f.node) if isinstance(n, ast.Assign)
+                and any(isinstance(t, ast.Name) and t.id == e.id for t in n.targets)]
+        return bool(defs) and all(numeric_string(d, f, ix, for_float, depth + 1) or _pad_of(d, e.id) for d in defs) \
+            and any(numeric_string(d, f, ix, for_float, depth + 1) for d in defs)
+    return False
+
+
+def _pad_of(d, name):
+    """x = x + (K - len(x)) * "0"  keeps a digit string a digit string"""
+    return (isinstance(d, ast.BinOp) and isinstance(d.op, ast.Add) and isinstance(d.left, ast.Name) and d.left.id == name
+            and isinstance(d.right, ast.BinOp) and isinstance(d.right.op, ast.Mult)
+            and isinstance(d.right.right, ast.Constant) and d.right.right.value == "0")
 
 
 def none_guarded(f, node, recv_expr):
